@@ -1,10 +1,15 @@
 """C17 - keyword search reports exactly the delimited, case-insensitive occurrences."""
 LEVEL = "proof"
 LEVEL_TEXT = ("keyword.find_all is proved, for all data and keywords and all iterations, to return exactly the sub-sequence of the "
-              "left-to-right occurrence chain whose neighbouring bytes are not alphanumeric (loop invariant with ghost chain/cnt/idx witnesses)")
-LEVEL_NOTE = "bytes.find is an uninterpreted function shared by code and specification (validated at run time); isalnum / slices are opaque symbols"
+              "left-to-right occurrence chain whose neighbouring bytes are not alphanumeric (loop invariant with ghost chain/cnt/idx witnesses), every "
+              "reported start being an in-bounds, delimited occurrence; is_mixed_case is proved equivalent to 'neither all upper nor all lower and some "
+              "letter differs in case from the listed keyword' (Latin-1 str semantics of chr().isupper() encoded from the running CPython); every node of "
+              "find_keywords is proved to carry the list name as type, a listed keyword as value, a delimited case-insensitive occurrence as span and a "
+              "MixedCase-or-empty label (nested comprehension, element-wise)")
+LEVEL_NOTE = ("bytes.find is an uninterpreted function shared by code and specification; isalnum / slices are opaque symbols inside quantified clauses; completeness of "
+              "find_keywords (every delimited occurrence of every keyword yields a node, in order) and the exact label are covered by the exhaustive bounded stand-in")
 DESIGN_REF = "DESIGN.md section 6 (C17)"
-FUNCTIONS = ["multidecoder.keyword.find_all"]
+FUNCTIONS = ["multidecoder.keyword.find_all", "multidecoder.keyword.find_keywords", "multidecoder.keyword.is_mixed_case"]
 BOUNDED_NOTE = "bounded stand-in: find_all / find_keywords / registry-built searchers against an executable reference, exhaustively over a small alphabet"
 
 
